@@ -19,6 +19,8 @@ EXEMPT = {'BSC_getpid', 'BSC_getuid', 'BSC_geteuid', 'BSC_getppid', 'BSC_getegid
           'BSC_sync', 'BSC_sys_getdtablesize', 'BSC_getlogin', 'BSC_execve', 'BSC_vfork', 'BSC_bsdthread_create',
           'BSC_abort_with_payload'}
 ERRS = [0] + list(range(1, 107)) + [107, 110, 250, 255, 9999, 1 << 31, 1 << 32, 1 << 63, M64]     # 110, 250: decimal forms that end in 0
+# words that read as the kernel's negative pseudo-errors (ERESTART -1, EJUSTRETURN -2, ...) when taken as signed 32 / 64 bit
+ERRS += [0xfffffffd, 0xfffffffe, 0xffffffff, (1 << 32) + 2, (1 << 63) + 2, M64 - 2, M64 - 1]
 RETS = [0, 1, 10, 0x55, 1000, 1 << 31, 1 << 63, M64]
 TAILS = [(0, 0), (0x66, 0x77)]
 STARTS = [(0x1111, 0x2222, 0x3333, 0x4444), (0, 0, 0, 0), (M64, M64, M64, M64)]
@@ -187,7 +189,7 @@ def judge_decoder(name, starts, nlooks, acc, full=True):
         for nlook in nlooks:
             call0 = None
             extra0 = None
-            for err in (ERRS if (full or si == 0) and not ood else (0, 2, 9999, M64)):
+            for err in (ERRS if (full or si == 0) and not ood else (0, 2, 9999, 0xfffffffe, M64 - 1, M64)):
                 for ret in RETS:
                     for tail in TAILS:
                       for shape in ((None, 'long', 'crossing', 'enclosing', 'odd-timestamps', 'other-open-inside', 'other-open-before', 'same-thread-crossing', 'start-without-end-after', 'with-related-records', 'nested-then-orphan-end', 'brace-path', 'tables-name-the-words', 'after-an-open-that-returned-the-first-word', 'same-code-ALL-record-inside') if (err in (0, 2, 9999) and ret in (0x55, M64) and tail == TAILS[1] and si == 0) else (None,)):
@@ -267,7 +269,7 @@ def judge_decoder(name, starts, nlooks, acc, full=True):
 class C10(Check):
     pid = 'C10'
     level = 'exploration'
-    rule = ('every BSD decoder outside the exempt list (15 names from the statement) x START tuples {junk, zeros, all-ones} (enum words forced in-domain; plus one tuple with the enum-valued words OUTSIDE their table, judged only if the tree decodes it at all; quick: zeros and all-ones meet error words {0, 2, 9999, 2^64-1} only) x END tuples = error word {0, every errno 1..106, 107, 110, 250, 255, '
+    rule = ('every BSD decoder outside the exempt list (15 names from the statement) x START tuples {junk, zeros, all-ones} (enum words forced in-domain; plus one tuple with the enum-valued words OUTSIDE their table, judged only if the tree decodes it at all; quick: zeros and all-ones meet error words {0, 2, 9999, 2^64-1} only) x END tuples = error word {0, every errno 1..106, 107, 110, 250, 255, the words that read as negative pseudo-errors when taken as signed (2^32-3..2^32-1, 2^32+2, 2^63+2, 2^64-3, 2^64-2), '
             '9999, 2^31, 2^32, 2^63, 2^64-1} x return word {0,1,10,0x55,1000,2^31,2^63,2^64-1} x words 2,3 {(0,0),(0x66,0x77)} x '
             'lookups in window {6 (quick); 0 and 6 (thorough)}; for 12 END tuples per decoder also a window with 5000 stand-alone '
             'same-thread records between START and END, and crossing / enclosing windows (another thread inside the same call with other END '
